@@ -2,6 +2,7 @@
    proof files; the driver pins the statements with [Check] and prints the
    assumptions on every run. *)
 From Yv Require Import Common.Base C06.Model C06.Spec C06.SpecCmd C06.SpecCompound C06.Proofs.
+From Yv Require Import C06.GenTie Gen.Gen_Keywords.
 From Coq Require Ascii String.
 Import Coq.Strings.String.StringSyntax.
 
@@ -196,3 +197,17 @@ Proof. exact parse_print_refuted_lemma. Qed.
 
 Theorem oracle_err : forall s, oracle PErr s = None.
 Proof. exact oracle_accepts_errors. Qed.
+
+(* TIE BY TRANSLATION: the reserved words of the parser and printer models are
+   those of yash-syntax/src/parser/lex/keyword.rs as it is now (translator/keywords.py) *)
+Theorem parser_keyword_table_is_source_table :
+  map (fun p => (fst p, keyword_index (snd p))) keyword_table = gen_keyword_from_str.
+Proof. exact parser_keyword_table_is_source_table. Qed.
+Theorem printer_keywords_are_source_texts : keywords = map snd gen_keyword_as_str.
+Proof. exact printer_keywords_are_source_texts. Qed.
+Theorem keyword_clause_delimiters_are_source :
+  forall k, is_clause_delimiter (TToken (Some k)) = existsb (N.eqb (keyword_index k)) gen_clause_delimiters.
+Proof. exact keyword_clause_delimiters_are_source. Qed.
+Print Assumptions parser_keyword_table_is_source_table.
+Print Assumptions printer_keywords_are_source_texts.
+Print Assumptions keyword_clause_delimiters_are_source.
